@@ -45,16 +45,6 @@ theorem bind_ite {Î± Î²} (c : Prop) [Decidable c] (a b : Except PyErr Î±) (k : Î
 
 end Proofs
 
-/-- Unfold generated definitions and bring literal shifts/masks/powers to numeral normal form. -/
-macro "py_norm" loc:(Lean.Parser.Tactic.location)? : tactic =>
-  `(tactic| simp only [pygen, Proofs.shr_lit, Proofs.shl_lit, Proofs.pow_lit,
-      Int.reducePow, Int.reduceMul, Int.reduceSub, Int.reduceAdd, Int.reduceNeg,
-      Proofs.and_mask64, Proofs.bind_ite, Proofs.bind_ok, Proofs.bind_error] $[$loc]?)
-
-/-- Finish a goal that is a tree of `if`s over linear integer conditions. -/
-macro "py_cases" : tactic =>
-  `(tactic| (repeat' split) <;> first | rfl | omega | (simp_all <;> omega))
-
 namespace Proofs
 /-- `Py.floorDiv`/`Py.mod` by a positive literal are `/` and `%` -/
 theorem floorDiv_pos' (a : Int) (n : Nat) [h : NeZero n] :
@@ -68,3 +58,15 @@ theorem mod_pos' (a : Int) (n : Nat) [h : NeZero n] :
     have : (OfNat.ofNat n : Int) = (n : Int) := rfl
     rw [this]; have := h.out; omega)
 end Proofs
+
+/-- Unfold generated definitions and bring literal shifts/masks/powers to numeral normal form. -/
+macro "py_norm" loc:(Lean.Parser.Tactic.location)? : tactic =>
+  `(tactic| simp only [pygen, Proofs.shr_lit, Proofs.shl_lit, Proofs.pow_lit,
+      Int.reducePow, Int.reduceMul, Int.reduceSub, Int.reduceAdd, Int.reduceNeg, Int.reduceDiv, Int.reduceMod,
+      Proofs.floorDiv_pos', Proofs.mod_pos',
+      Proofs.and_mask64, Proofs.bind_ite, Proofs.bind_ok, Proofs.bind_error] $[$loc]?)
+
+/-- Finish a goal that is a tree of `if`s over linear integer conditions. -/
+macro "py_cases" : tactic =>
+  `(tactic| (repeat' split) <;> first | rfl | omega | (simp_all <;> omega))
+
